@@ -107,6 +107,8 @@ def build_operand(spec, V, concrete=None):
 
     def cf(s):
         if concrete is not None and isinstance(s, str):
+            if concrete.get("__kind__") == "int":  # typed twin: every symbolic coefficient is a Python int
+                return int(concrete.get(s + "_re" if s[0] == "c" else s, 0))
             if s[0] == "c":
                 return complex(concrete.get(s + "_re", 0.0), concrete.get(s + "_im", 0.0))
             return float(concrete.get(s, 0.0))
@@ -270,6 +272,21 @@ def _w_arith(res, p):
             else:
                 res.inconc("z3 unknown on the path obligation", clause)
     res.sample({"operation": p["label"], "paths": ex.npaths})
+    # typed twins (ground): the same operation with every coefficient a Python int, then a Python float - arithmetic that goes
+    # through numpy arrays or integer division depends on the KIND of number, which the symbolic run cannot vary
+    if V.names:
+        for kind, pool in (("int", [3, -2, 5, 1, -1, 2]), ("float", [0.75, -1.5, 2.25, 0.5, -0.25, 1.0])):
+            vals = {nm: pool[i % len(pool)] for i, nm in enumerate(V.names)}
+            if kind == "int":
+                vals["__kind__"] = "int"
+            res.d["ground_instances"] += 1
+            for clause in ("denotes-matrix-operation", "arguments-unchanged"):
+                res.ob(1)
+                bad, detail = replay({"inputs": dict(p, clause=clause, values=vals)})
+                if bad:
+                    res.candidate(clause, f"{p['label']} with {kind} coefficients {vals}: {clause} fails: {detail}", dict(p, clause=clause, values=vals), sub=f"{clause}:{kind}")
+                else:
+                    res.ob(0, 1, "ground-numeric")
 
 
 class _LazyBase(list):
